@@ -204,6 +204,109 @@ theorem mkFn_cell {α : Type} (d : List Int) (hne : d ≠ []) (hd : NonNeg d) (f
     ∃ g, Grid.mkFn d (fun p => pure (f p)) = .ok g ∧ g.size = d ∧ Denotes g f :=
   ⟨_, (mkFn_denotes d hne hd _ f (fun _ _ => rfl)).1, rfl, (mkFn_denotes d hne hd (fun p => pure (f p)) f (fun _ _ => rfl)).2⟩
 
+/-- **mkRows_cell** — `object(static_row…)`: for rows of equal length `w` the grid has size `(w, number of rows)`,
+    `w * rows` cells, and the cell at `(x, y)` is element `x` of row `y` (row-major: a row is a run of `x`). -/
+theorem mkRows_cell {α : Type} (r1 : List α) (rs : List (List α)) (hw : ∀ r ∈ rs, r.length = r1.length) :
+    (Grid.mkRows r1 rs).size = [(r1.length : Int), ((rs.length + 1 : Nat) : Int)] ∧
+    (Grid.mkRows r1 rs).cells.length = (contents (Grid.mkRows r1 rs).size).toNat ∧
+    ∀ (x y : Nat) (r : List α) (v : α), (r1 :: rs)[y]? = some r → r[x]? = some v →
+      (Grid.mkRows r1 rs).getUnsafe [(x : Int), (y : Int)] = .ok v := by
+  refine ⟨rfl, ?_, fun x y r v => mkRows_getUnsafe r1 rs hw x y r v⟩
+  have hall : ∀ r ∈ r1 :: rs, r.length = r1.length := by
+    intro r hr
+    simp only [List.mem_cons] at hr
+    rcases hr with rfl | h
+    · rfl
+    · exact hw r h
+  have := length_flatten_uniform (r1 :: rs) r1.length hall
+  simp only [Grid.mkRows, contents, List.foldl_cons, List.foldl_nil, Int.one_mul] at this ⊢
+  rw [this, ← Int.natCast_mul, Int.toNat_natCast, List.length_cons, Nat.mul_comm]
+
+/-! ## special members: size and cells travel together -/
+
+/-- **special_members_refine** — every history of copy / move constructions, copy / move assignments (self-assignment
+    included), member and free swaps between objects behaves as the same history on whole grid *values*: copying
+    duplicates the value, moving transfers it (the source holds nothing until assigned again), swapping exchanges
+    the objects.  A history is legal for the model exactly when it is for the specification. -/
+theorem special_members_refine {α : Type} (st : List (Slot α)) (prog : List RegOp) :
+    (regRun st prog).map (List.map absSlot) = specRun (st.map absSlot) prog :=
+  regRun_refines st prog
+
+/-- consequently no history ever produces a grid whose size and cells do not belong together: every object that
+    is not moved-from holds one of the grids the history started with, unchanged. -/
+theorem special_members_preserve_values {α : Type} (st st' : List (Slot α)) (prog : List RegOp)
+    (h : regRun st prog = some st') (x : Slot α) (hx : x ∈ st') (hm : x.moved = false) :
+    ∃ y ∈ st, y.moved = false ∧ y.g = x.g := by
+  have h1 := special_members_refine st prog
+  rw [h] at h1
+  have hv : some x.g ∈ st'.map absSlot := List.mem_map.mpr ⟨x, hx, by simp [absSlot, hm]⟩
+  have := specRun_mem _ _ prog h1.symm x.g hv
+  obtain ⟨y, hy, he⟩ := List.mem_map.mp this
+  refine ⟨y, hy, ?_⟩
+  unfold absSlot at he
+  cases hmv : y.moved <;> simp_all
+
+/-! ## comparison -/
+
+/-- **eq_spec** — `operator==` on well-formed grids never reads past the second operand's cells and is equality of
+    size **and** cells. -/
+theorem eq_spec {α : Type} [BEq α] [LawfulBEq α] (a b : Grid α)
+    (ha : a.cells.length = (contents a.size).toNat) (hb : b.cells.length = (contents b.size).toNat) :
+    ∃ r, a.eq b = .ok r ∧ (r = true ↔ a = b) ∧ a.ne b = .ok (!r) := by
+  obtain ⟨r, h1, h2⟩ := gridEq_spec a b ha hb
+  exact ⟨r, h1, h2, by simp only [Grid.ne, h1]; rfl⟩
+
+/-- in terms of positions: two grids are `==` iff they have the same size and the same cell at every in-range
+    position (the same flattened cells under a different size are *not* equal). -/
+theorem eq_iff_same_cells {α : Type} [BEq α] [LawfulBEq α] {a b : Grid α} {va vb : Pos → α}
+    (ha : Denotes a va) (hb : Denotes b vb) :
+    ∃ r, a.eq b = .ok r ∧ (r = true ↔ a.size = b.size ∧ ∀ p, InRange a.size p → va p = vb p) := by
+  have la : a.cells.length = (contents a.size).toNat := ((denotes_iff a va).mp ha).2.2.1
+  have lb : b.cells.length = (contents b.size).toNat := ((denotes_iff b vb).mp hb).2.2.1
+  obtain ⟨r, h1, h2⟩ := gridEq_spec a b la lb
+  refine ⟨r, h1, ?_⟩
+  rw [h2, grid_eq_iff, ha.2.2, hb.2.2]
+  constructor
+  · rintro ⟨hs, hc⟩
+    refine ⟨hs, fun p hp => ?_⟩
+    rw [← hs, List.map_inj_left] at hc
+    exact hc p ((mem_box (length_zeros a.size) p).mpr hp)
+  · rintro ⟨hs, hc⟩
+    refine ⟨hs, ?_⟩
+    rw [← hs, List.map_inj_left]
+    exact fun p hp => hc p ((mem_box (length_zeros a.size) p).mp hp)
+
+/-- **lt_spec** — `operator<` is the lexicographic order on (size, cells), sizes and cells themselves compared
+    lexicographically (`x` first, storage order); `>`, `<=`, `>=` are derived from it as documented. -/
+theorem lt_spec (a b : Grid Int) :
+    (a.lt b = true ↔ (LexLt a.size b.size ∨ (a.size = b.size ∧ LexLt a.cells b.cells))) ∧
+    a.gt b = b.lt a ∧ a.le b = !(b.lt a) ∧ a.ge b = !(a.lt b) :=
+  ⟨gridLt_iff a b, rfl, rfl, rfl⟩
+
+/-- `operator<` is a strict total order on grids: irreflexive, transitive, and any two different grids are
+    comparable — so exactly one of `a < b`, `a = b`, `b < a` holds. -/
+theorem lt_strict_total (a b c : Grid Int) :
+    a.lt a = false ∧ (a.lt b = true → b.lt c = true → a.lt c = true) ∧ (a.lt b = true ∨ a = b ∨ b.lt a = true) := by
+  refine ⟨?_, ?_, ?_⟩
+  · cases h : a.lt a
+    · rfl
+    · rcases (gridLt_iff a a).mp h with h | ⟨_, h⟩ <;> exact absurd h (LexLt.irrefl _)
+  · intro h1 h2
+    rw [gridLt_iff] at h1 h2 ⊢
+    rcases h1 with h1 | ⟨e1, h1⟩ <;> rcases h2 with h2 | ⟨e2, h2⟩
+    · exact Or.inl (h1.trans h2)
+    · exact Or.inl (e2 ▸ h1)
+    · exact Or.inl (e1 ▸ h2)
+    · exact Or.inr ⟨e1.trans e2, h1.trans h2⟩
+  · simp only [gridLt_iff, GridLt, grid_eq_iff]
+    rcases LexLt.total a.size b.size with h | h | h
+    · exact Or.inl (Or.inl h)
+    · rcases LexLt.total a.cells b.cells with h' | h' | h'
+      · exact Or.inl (Or.inr ⟨h, h'⟩)
+      · exact Or.inr (Or.inl ⟨h, h'⟩)
+      · exact Or.inr (Or.inr (Or.inr ⟨h.symm, h'⟩))
+    · exact Or.inr (Or.inr (Or.inl h))
+
 /-- `in_range` (for an unsigned position: all components ≥ 0) is the in-range predicate. -/
 theorem inRange_spec {α : Type} (g : Grid α) {p : Pos} (hl : p.length = g.size.length) (hp : NonNeg p) :
     g.inRange p = true ↔ InRange g.size p :=
@@ -323,6 +426,17 @@ example : posRange [0, 2, 0] [2, 1, 2] = .ok [] ∧ rangeSize [0, 2, 0] [2, 1, 2
 -- without the reset to `min` the carry would leave the box: the model's carry really resets
 example : next [1, 0] [0, 0] [2, 2] = [0, 1] := by decide
 example : Within [1, 0] [3, 2] [3, 2] := by simp [Within]
+-- static rows: 3 cells per row, 2 rows; the cell at (x, y) = (2, 1) is the last of the second row
+example : (Grid.mkRows [1, 2, 3] [[4, 5, 6]]).size = [3, 2] ∧ (Grid.mkRows [1, 2, 3] [[4, 5, 6]]).getUnsafe [2, 1] = .ok 6 := by decide
+-- same flattened cells, different shape: not equal, and ordered by size
+example : (⟨[2, 3], [1, 2, 3, 4, 5, 6]⟩ : Grid Int).eq ⟨[3, 2], [1, 2, 3, 4, 5, 6]⟩ = .ok false ∧
+    (⟨[2, 3], [1, 2, 3, 4, 5, 6]⟩ : Grid Int).lt ⟨[3, 2], [1, 2, 3, 4, 5, 6]⟩ = true := by decide
+-- two empty grids of different sizes are different
+example : (⟨[0, 3], []⟩ : Grid Int).eq ⟨[3, 0], []⟩ = .ok false := by decide
+-- a legal history: move 1 into 0, swap 0 and 2, self-move-assign 2; the moved-from object keeps only its size
+example : regRun [⟨(⟨[1], [7]⟩ : Grid Int), false⟩, ⟨⟨[2], [8, 9]⟩, false⟩, ⟨⟨[0], []⟩, false⟩]
+      [.moveAssign 0 1, .swapMember 0 2, .moveAssign 2 2]
+    = some [⟨⟨[0], []⟩, false⟩, ⟨⟨[2], []⟩, true⟩, ⟨⟨[2], [8, 9]⟩, false⟩] := by decide
 -- the literal fold also tests an index whose predecessor did not carry (current position outside the box)
 example : nextFold [0, 2, 0] [0, 0, 0] [2, 2, 2] = [1, 0, 1] ∧ next [0, 2, 0] [0, 0, 0] [2, 2, 2] = [1, 0, 1] := by decide
 -- 2^32 x 2^32 cells: the 64-bit content wraps to 0, the offset of the last position to 2^64 - 1
